@@ -40,6 +40,17 @@ def key_value(it, k, sample):
 
 def install(prog):
     M = prog.model
+    # marwood's own iterators over Cell lists run from their MIR, not through the generic iterator models
+    for _c in ('<cell::IntoIter as Iterator>::next', '<cell::Iter as Iterator>::next', '<&cell::Cell as IntoIterator>::into_iter', '<cell::Cell as IntoIterator>::into_iter',
+               '<IntoIter as Iterator>::next'):
+        _fn = prog.resolve_crate(_c)
+        if 'IntoIterator' in _c:
+            # `impl IntoIterator for &'a Cell` and `impl IntoIterator for Cell`: told apart by the parameter type, never guessed
+            byref = _c.startswith('<&')
+            _cands = [k for k, f in prog.funcs.items() if k.startswith('cell::<impl at') and k.endswith('::into_iter')
+                      and str(f.local_types().get('_1', '')).startswith('&') == byref]
+            _fn = _cands[0] if len(_cands) == 1 else None
+        if _fn: prog.exact[_c] = (lambda fn: lambda it, m, a: it.call(fn, a))(_fn)
 
     @M(r'HashMap::<.*>::new|HashSet::<.*>::new|<HashMap<.*> as Default>::default|HashMap::<.*>::with_capacity')
     def _(it, m, a): return HMap()
